@@ -249,6 +249,7 @@ type stdioTransport struct {
 	logger      Logger
 	contextFunc StdioContextFunc
 	session     *stdioSession
+	writeMu     sync.Mutex // serialises frames on stdout: payload and newline are written as one unit
 }
 
 // stdioServerTransportOption configures a stdioTransport.
@@ -520,6 +521,10 @@ func (s *stdioTransport) writeResponse(response interface{}, writer io.Writer) e
 	if err != nil {
 		return fmt.Errorf("error marshaling response: %w", err)
 	}
+
+	// Responses are written from one goroutine per request, plus the outgoing-message pump.
+	s.writeMu.Lock()
+	defer s.writeMu.Unlock()
 
 	if _, err := writer.Write(data); err != nil {
 		return fmt.Errorf("error writing response: %w", err)
